@@ -109,7 +109,7 @@ Definition cmp_read (m : mobs) (c : fobs) (off : Z) (dump : value) : list N :=
                | FOOk => if veq_mod v dump && (n =? off) then [] else [1%N]
                | _ => [1%N] end
   | MErr x => match c with FOCrash => [] | _ => if fobs_eqb x c then [] else [1%N] end
-  | MPanic _ => match c with FOPanic => [] | _ => [1%N] end
+  | MPanic _ => match c with FOPanic | FOCrash => [] | _ => [1%N] end
   | MFuel => [9%N]
   | MDomain => [8%N]
   end.
@@ -118,7 +118,7 @@ Definition cmp_read (m : mobs) (c : fobs) (off : Z) (dump : value) : list N :=
 Definition panic_codes (truncated : bool) (m : mobs) (c : fobs) : list N :=
   if fobs_bad c then
     match m, c with
-    | MErr _, FOCrash => [17%N]
+    | MErr _, FOCrash | MPanic _, FOCrash => [17%N]   (* make(T, size) comes before the elements are looked at *)
     | MPanic false, FOPanic => [if truncated then 6%N else 7%N]
     | MPanic true, FOPanic => [if truncated then 13%N else 14%N]
     | _, _ => [if truncated then 15%N else 16%N]
@@ -149,7 +149,7 @@ Fixpoint trunc_checks (e : env) (s : sschema) (own : bool) (input : bytes) (i : 
        (match m with
         | MOk _ _ => match o with FOOk => [] | _ => [1%N] end
         | MErr x => match o with FOCrash => [] | _ => if fobs_eqb x o then [] else [1%N] end
-        | MPanic _ => match o with FOPanic => [] | _ => [1%N] end
+        | MPanic _ => match o with FOPanic | FOCrash => [] | _ => [1%N] end
         | MFuel => [9%N]
         | MDomain => [8%N]
         end) ++ panic_codes true m o) ++
